@@ -6,6 +6,7 @@ pub mod common;
 pub mod pkce;
 pub mod poll;
 pub mod req;
+pub mod seceq;
 pub mod urlt;
 
 pub fn dispatch(op: &str, cfg: &RunCfg, d: &mut Driver) -> Option<OpResult> {
@@ -18,6 +19,7 @@ pub fn dispatch(op: &str, cfg: &RunCfg, d: &mut Driver) -> Option<OpResult> {
         "pkce_flow" => run_op::<pkce::PkceFlowCase>(cfg, d),
         "rand" => run_op::<pkce::RandCase>(cfg, d),
         "url" => run_op::<urlt::UrlCase>(cfg, d),
+        "seceq" => run_op::<seceq::SecEqCase>(cfg, d),
         "poll" => run_op::<poll::PollCase>(cfg, d),
         _ => return None,
     })
